@@ -45,6 +45,8 @@ int run_ledger_family(verif::Args const& args, verif::Report& rep)
             hint = "field";
         else if (h < 0.4)
             hint = "tiny-slots";
+        else if (h < 0.46 && prop == "C01" && family == "synth")
+            hint = "integral-off";  // dedicated family: integral approach disabled (known finding)
         ProblemSpec spec = draw_problem(cseed, family, hint);
 
         RunOptions ro;
